@@ -12,6 +12,7 @@ import (
 	"fmt"
 	"go/types"
 	"strings"
+	"sync/atomic"
 )
 
 type SVal interface{}
@@ -59,32 +60,32 @@ type IfaceV struct {
 }
 
 type FuncV struct {
-	Fn     interface{} // *ssa.Function when known
-	Binds  []SVal
-	IsNil  *Term
-	Id     *Term // Int identity for symbolic function values
-	Sig    *types.Signature
-	Name   string
+	Fn    interface{} // *ssa.Function when known
+	Binds []SVal
+	IsNil *Term
+	Id    *Term // Int identity for symbolic function values
+	Sig   *types.Signature
+	Name  string
 }
 
 type TupleV struct{ Vals []SVal }
 
 type OpaqueV struct { // maps, chans, unsupported
-	T    types.Type
-	Id   *Term
+	T     types.Type
+	Id    *Term
 	IsNil *Term
 }
 
 // ---------- objects ----------
 
 type Object struct {
-	ID    int
-	Name  string
-	Array bool
-	Elem  types.Type // element type for arrays, value type for single objects
-	Pre   bool       // existed at entry of the function under verification (or global)
+	ID     int
+	Name   string
+	Array  bool
+	Elem   types.Type // element type for arrays, value type for single objects
+	Pre    bool       // existed at entry of the function under verification (or global)
 	Global bool
-	Dummy bool
+	Dummy  bool
 }
 
 func (o *Object) String() string { return fmt.Sprintf("obj%d(%s)", o.ID, o.Name) }
@@ -120,11 +121,10 @@ type Content struct {
 	id     int
 }
 
-var contentCounter int
+var contentCounter int64
 
 func newContent(c Content) *Content {
-	contentCounter++
-	c.id = contentCounter
+	c.id = int(atomic.AddInt64(&contentCounter, 1))
 	return &c
 }
 
